@@ -506,7 +506,7 @@ theorem RIc.appendCache {T T' : CTab} {raw : Raw} {h : Nat → Int} {w : World} 
     unfold cntOf
     show ((entCount T'.dead (w.caches ++ [kc]) o : Nat) : Int) + h o = _
     rw [entCount_append_empty _ _ _ _ hents, entCount_congr w.caches o hd]
-  refine ⟨hi.len, hi.rawSec, hi.rawObj, hi.sec, hi.led, ?_, hi.hval, ?_, ?_, ?_⟩
+  refine ⟨hi.len, hi.rawSec, hi.rawObj, hi.sec, hi.mat, hi.led, ?_, hi.hval, ?_, ?_, ?_⟩
   · intro o k hk; rw [hcnt]; exact hi.acc o k hk
   · intro c kc' hc' hdc
     simp only [getElem?_append_single] at hc'
@@ -862,8 +862,9 @@ theorem QInv.init (t : Int) : QInv (World.init t) := by
   · intro s ss h; simp [World.init] at h
   · intro s s' ss ss' h; simp [World.init] at h
   · intro c h; simp [World.init] at h
-  · refine ⟨rfl, fun s h => (by cases h), fun o h => (by cases h), ?_, ?_, ?_, ?_, ?_, ?_, rfl⟩
+  · refine ⟨rfl, fun s m h => (by cases h), fun o h => (by cases h), ?_, ?_, ?_, ?_, ?_, ?_, ?_, rfl⟩
     · intro o k h; simp [World.init] at h
+    · intro o k sx h; simp [World.init] at h
     · intro i s h; simp [World.init] at h
     · intro o k h; simp [World.init] at h
     · intro o h; simp [hcount] at h
